@@ -17,6 +17,8 @@ man = {
     "engines": [
         {"name": "E1 choice-tree explorer", "path": "mc/enum", "serves_properties": sorted(checks.keys()),
          "kind_free_text": "stateless bounded-exhaustive DFS over harness choice points (deviation bound, free sub-spaces), executes the real code on every leaf and compares with a reference model"},
+        {"name": "E2 controlled scheduler on instrumented sources", "path": "shim/sched, shim/v*, instr", "serves_properties": [k for k in sorted(checks) if "E2" in checks[k].get("engine","")],
+         "kind_free_text": "go/packages-based source instrumenter (go/chan/select/sync/time/context/net/rand -> shims, supplied by build overlay) + cooperative scheduler with virtual time; schedules enumerated by the E1 explorer with preemption bounding"},
         {"name": "E3 crash-isolating workers", "path": "fw", "serves_properties": [k for k in sorted(checks) if checks[k].get("isolated")],
          "kind_free_text": "process-level sharding with case journal: worker death (stack overflow, OOM under RLIMIT_AS, hang) is attributed to the journaled case"},
     ],
